@@ -106,7 +106,16 @@ func (in *Interp) global(g *ssa.Global) *Obj {
 			return o
 		}
 	}
-	o := w.newObj(w.zero(g.Type().Underlying().(*types.Pointer).Elem()), "global "+g.Name())
+	et := g.Type().Underlying().(*types.Pointer).Elem()
+	init := w.zero(et)
+	if g.Pkg != nil && !strings.HasPrefix(g.Pkg.Pkg.Path(), w.env.repoMod) && strings.HasPrefix(g.Name(), "Err") || g.Name() == "EOF" {
+		// sentinel error variables of packages whose initialisers are not run (io.EOF, io.ErrUnexpectedEOF, ...):
+		// a distinct errors.New value per variable, as their initialisers create
+		if types.Identical(et, types.Universe.Lookup("error").Type()) {
+			init = in.newErrorString(g.Pkg.Pkg.Name() + "." + g.Name())
+		}
+	}
+	o := w.newObj(init, "global "+g.Name())
 	w.globals[g] = o
 	return o
 }
@@ -144,7 +153,7 @@ func interpretable(fn *ssa.Function, repoMod string) bool {
 		return true
 	}
 	switch path {
-	case "github.com/bits-and-blooms/bitset", "errors", "strconv", "strings", "bytes", "slices", "sort", "unicode/utf8", "math/bits", "internal/stringslite", "internal/bytealg":
+	case "github.com/bits-and-blooms/bitset", "errors", "strconv", "io", "strings", "bytes", "slices", "sort", "unicode/utf8", "math/bits", "internal/stringslite", "internal/bytealg":
 		return true
 	case "time":
 		if recv := fn.Signature.Recv(); recv != nil && strings.HasSuffix(recv.Type().String(), "time.Duration") {
@@ -162,6 +171,17 @@ func interpretable(fn *ssa.Function, repoMod string) bool {
 		switch fn.Name() {
 		case "Abs", "Max", "Min":
 			return false
+		}
+	case "net/http":
+		// plain data manipulation on requests (no transport): shallow copy with a new context, context accessor, NoBody
+		if recv := fn.Signature.Recv(); recv != nil {
+			rs := recv.Type().String()
+			if strings.HasSuffix(rs, "net/http.Request") && (fn.Name() == "WithContext" || fn.Name() == "Context") {
+				return true
+			}
+			if strings.HasSuffix(rs, "net/http.noBody") {
+				return true
+			}
 		}
 	}
 	return false
